@@ -102,11 +102,13 @@ func (c *TimedCheck) resetOpenTimeWithLock(now time.Time) {
 		c.lastSetTimer.Stop()
 		c.lastSetTimer = nil
 	}
-	c.nextOpenTime = now.Add(c.sleepDuration.Duration())
+	// Read the duration once so the timer and nextOpenTime agree even if SetSleepDuration runs concurrently
+	sleepDuration := c.sleepDuration.Duration()
+	c.nextOpenTime = now.Add(sleepDuration)
 	c.currentlyAllowedEventCount = 0
 	c.isFastFail.Set(true)
 	currentVersion := c.isFailFastVersion.Add(1)
-	c.lastSetTimer = c.afterFunc(c.sleepDuration.Duration(), func() {
+	c.lastSetTimer = c.afterFunc(sleepDuration, func() {
 		// If sleep start is called again, don't reset from an old version
 		if currentVersion == c.isFailFastVersion.Get() {
 			c.isFastFail.Set(false)
